@@ -76,6 +76,9 @@ def run_property(prop: str, tier: str, root: Path, write: bool = True, quiet: bo
     wall = time.time() - t0
     if not quiet:
         print(f"[sv] property={prop} tier={tier} repo={root} digest={repo.digest()}")
+        if repo.renamed:
+            ex = ", ".join(f"{m_}::{u_} {c_} -> {r_}" for m_, u_, c_, r_ in repo.renamed[:3])
+            print(f"[sv]   note: {len(repo.renamed)} renamed locals are read in the spelling the rules know (reports quote that spelling): {ex}, ...")
         for r in rep.rules():
             n_ok = sum(1 for i in rep.instances if i.rule == r and i.status == "ok")
             n_f = sum(1 for i in rep.instances if i.rule == r and i.status == "fail")
@@ -115,6 +118,7 @@ def run_property(prop: str, tier: str, root: Path, write: bool = True, quiet: bo
             code = 2
     if write:
         rep.analysed["undecided_rules"] = undecided
+        rep.analysed["locals_read_in_reference_spelling"] = len(repo.renamed)
         write_evidence(prop, spec, rep, tier, seed, wall, new, listed, selftest)
     return code
 
